@@ -2,7 +2,7 @@
    Only statements; proofs live in theories/Path. *)
 From Coq Require Import String List NArith Bool.
 From Coq Require Import Lia.
-From BFG Require Import Base.Chars Path.PathAlg Path.PathAlgProofs Path.PathAlgMk Path.PathAlgRt.
+From BFG Require Import Base.Chars Path.PathAlg Path.PathAlgProofs Path.PathAlgMk Path.PathAlgRt Path.PathAlgNested.
 Import ListNotations.
 
 (* Whatever string, root (plain or a base path) and flags the constructor accepts, the stored components
@@ -34,6 +34,14 @@ Theorem C12_rejects_escape : forall s x dd dir,
   escapes 0 (split_seps s) = true -> mk s (RRoot x) dd dir = None.
 Proof. exact mk_rejects_escape. Qed.
 Print Assumptions C12_rejects_escape.
+
+(* containment through nested roots: with a (drive-less, relative) base path as root, a relative string is
+   rejected exactly when its walk, started at the depth of the base, steps above the ultimate root *)
+Theorem C12_confined_nested : forall b s dd,
+  relbase b -> fst (splitdrive (unbs s)) = [] -> initial_slashes (unbs s) = 0 ->
+  (mk s (RPath b) dd None = None <-> escapes (length (p_comps b)) (split_seps s) = true).
+Proof. exact mk_nested_confined. Qed.
+Print Assumptions C12_confined_nested.
 
 (* equal paths (as __eq__ sees them) have equal hashed values *)
 Theorem C12_eq_hash : forall p q, path_eqb p q = true -> path_hash p = path_hash q.
